@@ -140,7 +140,99 @@ def p_multisig_matching(keys, sigs, rows):
     return None
 
 
-PROPS = {"valid_spend": p_valid_spend, "unauthorised": p_unauthorised, "multisig_matching": p_multisig_matching}
+# ----------------------------------------------------------------- one object, many calls
+# The statement is "for every spend the verdict is X": a Tx / TxIn / Script / Witness object that is verified,
+# edited in place and verified again must answer like a freshly parsed object in the same state.  The fields
+# below are the declared (constructor) fields; anything else an object carries (memoised digests, parsed
+# scripts, verdicts …) is left alone by the in-place editor, so a memo that is not invalidated goes stale here.
+
+_FIELDS = {
+    "Tx": ("version", "tx_ins", "tx_outs", "locktime", "network", "segwit"),
+    "TxIn": ("prev_tx", "prev_index", "script_sig", "sequence", "witness", "_value", "_script_pubkey"),
+    "TxOut": ("amount", "script_pubkey"),
+    "Script": ("commands", "raw"),
+    "Witness": ("items",),
+}
+
+
+def _fields(o):
+    for cls in type(o).__mro__:
+        if cls.__name__ in _FIELDS:
+            return _FIELDS[cls.__name__]
+    return None
+
+
+def graft(dst, src, depth):
+    """Give every declared field of dst the value it has in src, editing dst IN PLACE down to `depth` levels of
+    objects (below that, src's sub-objects are assigned); lists are always edited by slice assignment.
+    Returns the object to store in the parent (dst when it could be kept)."""
+    if isinstance(dst, list) and isinstance(src, list):
+        dst[:] = [graft(dst[i], y, depth) if i < len(dst) else y for i, y in enumerate(src)]
+        return dst
+    f = _fields(dst)
+    if f is None or type(dst) is not type(src) or depth <= 0:
+        return src
+    for name in f:
+        setattr(dst, name, graft(getattr(dst, name, None), getattr(src, name, None), depth - 1))
+    return dst
+
+
+def verdict(tx, idx):
+    try:
+        return 1 if quiet(tx.verify_input, idx) else 0
+    except Exception:
+        return 0            # an exception is "not accepted"
+
+
+def p_reuse(ctxs, mode):
+    """ONE Tx object taken through the states ctxs[0], ctxs[1], … by in-place edits (mode bit 0 clear: the fields
+    of the Tx / TxIn / TxOut objects are assigned; set: the command and item lists inside the existing Script and
+    Witness objects are rewritten), verify_input(idx) after every step: each verdict must be the verdict of a
+    freshly parsed transaction in that state.  Mode bit 1: at the last state, if accepted, ONE combined Script
+    object is evaluated twice."""
+    from vp import sexp
+    fresh = {}
+
+    def want(c):
+        k = sexp.enc(c)
+        if k not in fresh:
+            fresh[k] = verdict(*unpack(c))
+        return fresh[k]
+
+    T, _ = unpack(ctxs[0])
+    depth = 9 if mode & 1 else 2
+    for step, c in enumerate(ctxs):
+        F, idx = unpack(c)
+        if step:
+            graft(T, F, depth)
+        try:
+            same = sexp.canon(pack(T, idx)) == sexp.canon(c)
+        except Exception as e:  # noqa
+            return f"step {step}: the edited transaction object does not serialise ({type(e).__name__})"
+        if not same:
+            return f"step {step}: the edited transaction object serialises differently from a fresh one in the same state"
+        got, exp = verdict(T, idx), want(c)
+        if got != exp:
+            return (f"step {step}: verify_input({idx}) on the reused object says {bool(got)}, on a fresh object in "
+                    f"the same state {bool(exp)}")
+        if exp and (mode & 2) and step == len(ctxs) - 1:
+            ti = T.tx_ins[idx]
+            comb = ti.script_sig + ti.script_pubkey()
+            before = list(comb.commands)
+            res = []
+            for _ in range(2):
+                try:
+                    res.append(1 if quiet(comb.evaluate, T, idx) else 0)
+                except Exception:
+                    res.append(0)
+            if res != [1, 1] or comb.commands != before:
+                return (f"step {step}: one combined Script object evaluated twice gives {res} "
+                        f"(commands {'changed' if comb.commands != before else 'unchanged'})")
+    return None
+
+
+PROPS = {"valid_spend": p_valid_spend, "unauthorised": p_unauthorised, "multisig_matching": p_multisig_matching,
+         "reuse": p_reuse}
 
 
 # ----------------------------------------------------------------- building spends
@@ -242,6 +334,27 @@ def build(kind, r, m=1, n=1, n_in=1):
         quiet(tx.finalize_p2tr_multisig, idx, sigs)
         meta.update(leaf=leaf, internal=internal)
     return Spend(kind, tx, idx, **meta)
+
+
+def build_all(r, kinds):
+    """a transaction whose inputs (one per entry of kinds, single-key types) are ALL validly signed"""
+    privs = [rpriv(r) for _ in kinds]
+    spks = []
+    for kind, p in zip(kinds, privs):
+        spks.append({"p2pkh": p.point.p2pkh_script, "p2wpkh": p.point.p2wpkh_script,
+                     "p2sh-p2wpkh": lambda p=p: p.point.p2sh_p2wpkh_redeem_script().script_pubkey(),
+                     "p2tr-key": p.point.p2tr_script}[kind]())
+    tx = new_tx(r, spks, [r.randrange(60000, 10 ** 8) for _ in kinds], n_out=2)
+    for i, (kind, p) in enumerate(zip(kinds, privs)):
+        if kind == "p2pkh":
+            quiet(tx.sign_p2pkh, i, p)
+        elif kind == "p2wpkh":
+            quiet(tx.sign_p2wpkh, i, p)
+        elif kind == "p2sh-p2wpkh":
+            quiet(tx.sign_p2sh_p2wpkh, i, p)
+        else:
+            quiet(tx.sign_p2tr_keypath, i, p.tweaked_key())
+    return tx
 
 
 def clone(sp):
@@ -484,12 +597,28 @@ def generate(ctx):
     for kind in KINDS_MULTI:
         for (m, n) in quorums:
             plan.append((kind, m, n, r.randrange(1, 4)))
+    # one transaction object with every input signed: the inputs verified in several orders on ONE object, then
+    # an output edited in place and restored
+    for mode in (0, 1):
+        tx = build_all(r, ["p2wpkh", "p2tr-key", "p2pkh"] if mode == 0 else ["p2sh-p2wpkh", "p2pkh", "p2wpkh"])
+        cs = [pack(tx, i) for i in range(3)]
+        t2 = copy.deepcopy(tx)
+        t2.tx_outs[1].amount -= 1
+        ctx.label("reuse/all-inputs-one-object")
+        yield ("prop", "reuse", [[cs[0], cs[1], cs[2], cs[1], pack(t2, 0), cs[0], pack(t2, 2), cs[2]], mode])
+        if ctx.tier == "quick":
+            break
+    # quick tier: the reuse sequences for every single-key type and one quorum per script type
+    reuse_sel = {("p2sh", 1, 2), ("p2wsh", 2, 2), ("p2sh-p2wsh", 1, 2), ("p2tr-script", 2, 2)}
+    n_reuse = 0
+    valids = []
     for (kind, m, n, n_in) in plan:
         sp = build(kind, r, m, n, n_in)
         ctx.label("spend/" + kind)
         c0 = pack(sp.tx, sp.idx)
         yield ("prop", "valid_spend", [c0])
         yield ("corr", "verify_input", model_args(c0))
+        by_label = {}
         for label, tx, unauth in mutations(r, sp):
             try:
                 cm = pack(tx, sp.idx)
@@ -501,3 +630,30 @@ def generate(ctx):
             yield ("corr", "verify_input", ma)
             if unauth:
                 yield ("prop", "unauthorised", [cm, label])
+                by_label[label] = cm
+        # ---- the same states on ONE object: mutated -> valid -> mutated -> valid, edited in place
+        single = kind in KINDS_SINGLE
+        if ctx.tier != "quick" or single or (kind, m, n) in reuse_sel:
+            second = ("bit flipped inside a signature" if single else
+                      "leaf script swapped for the attacker's" if kind == "p2tr-script" else
+                      "script swapped for the attacker's 1-of-1")
+            seq = [by_label.get("changed output amount"), c0, by_label.get(second), c0]
+            if ctx.tier != "quick":
+                seq += [by_label.get("changed sequence"), by_label.get("flipped sighash byte"), c0]
+            seq = [c for c in seq if c is not None]
+            for mode in ((n_reuse % 2,) if ctx.tier == "quick" else (0, 1)):
+                ctx.label("reuse/%s/%s" % (kind, "lists-edited-in-place" if mode else "fields-assigned"))
+                yield ("prop", "reuse", [seq, mode | (2 if single else 0)])
+            n_reuse += 1
+        valids.append(((kind, m, n), c0))
+    # ---- ONE object turned into different valid spends one after the other (other keys, scripts, witnesses,
+    # numbers of inputs), and back to the first
+    if ctx.tier == "quick":
+        want = [("p2wpkh", 1, 1), ("p2tr-script", 1, 1), ("p2tr-key", 1, 1), ("p2tr-script", 1, 2), ("p2wsh", 1, 1)]
+        chains = [([c for k, c in valids if k in want], 1)]
+    else:
+        chains = [([c for _, c in valids[i:i + 6]], mode) for i in range(0, len(valids), 5) for mode in (0, 1)]
+    for chain, mode in chains:
+        if len(chain) >= 2:
+            ctx.label("reuse/chain-of-different-spends")
+            yield ("prop", "reuse", [chain + [chain[0]], mode])
